@@ -17,7 +17,7 @@ RULE = ("a case is a typed list or dict field (item/key/value families with conc
         "contents, order, length, return value and result types are compared after every step; copies, + and += "
         "results must stay typed (they must reject an invalid item); non-trivial = >= 2 operations compared with "
         ">= 1 mutation; distinct = distinct (field, history)")
-REQUIRED = ("config_item_lists", "ops_compared", "list_ops_compared", "dict_ops_compared", "typed_result_probes", "op:setslice", "op:ior",
+REQUIRED = ("dict_equality_with_a_twin_configuration", "list_equality_with_a_twin_configuration", "dict_equality_queries", "list_equality_queries", "config_item_lists", "ops_compared", "list_ops_compared", "dict_ops_compared", "typed_result_probes", "op:setslice", "op:ior",
             "op:setdefault", "op:update", "op:extend", "op:iadd", "iter:iter", "iter:proxy_other", "iter:mapping",
             "update:proxy_same+kwargs", "update:proxy_other+kwargs", "update:pairs+kwargs", "iter:gen_dedup", "iter:multimap",
             "sorts_with_key_and_reverse", "members_removed_by_object", "equal_members_added")
@@ -399,6 +399,20 @@ def _list_op(cc, cfg, f, proxy, ref, op, res):
         checks = [("len", len(proxy), len(ref)), ("bool", bool(proxy), bool(ref))]
         if not _has_nan(ref):
             checks.append(("eq", proxy == list(ref), True))
+            checks += [("eq-copy", proxy == proxy.copy(), True), ("ne", proxy != list(ref), False), ("eq-none", proxy == None, False),  # noqa: E711
+                       ("eq-tuple", proxy == tuple(ref), False), ("eq-longer", proxy == list(ref) + [None], False),
+                       ("lt-longer", proxy < list(ref) + [list(ref)[0]] if ref else True, True)]
+            res.count("list_equality_queries")
+            if item.get("kind", "field") == "field":
+                try:
+                    twin = cfg._schema()
+                    twin.c = list(plain(proxy))
+                    twin_c = twin.c if eqstar(plain(twin.c), plain(proxy)) else None
+                except Exception:
+                    twin_c = None
+                if twin_c is not None:
+                    checks += [("eq-twin", proxy == twin_c, True), ("ne-twin", proxy != twin_c, False)]
+                    res.count("list_equality_with_a_twin_configuration")
         got = plain(proxy)
         if ref and not _has_nan(ref):
             x = ref[len(ref) // 2]
@@ -694,6 +708,24 @@ def _dict_op(cc, cfg, f, proxy, ref, op, res):
                   ("values", list(got.values()), list(ref.values()))]
         if not _has_nan(list(ref.values())) and not _has_nan(list(ref.keys())):
             checks.append(("eq", proxy == dict(ref), True))
+            # comparisons the builtin answers too: with a copy (another typed container), with None, with the list of pairs,
+            # with a dict that differs in one entry
+            other = dict(ref)
+            other["\x00no-such-key"] = None
+            checks += [("eq-copy", proxy == proxy.copy(), True), ("eq-self", proxy == proxy, True), ("ne", proxy != dict(ref), False),
+                       ("eq-none", proxy == None, False), ("eq-pairs", proxy == list(ref.items()), dict(ref) == list(ref.items())),  # noqa: E711
+                       ("eq-other", proxy == other, False), ("ne-other", proxy != other, True)]
+            res.count("dict_equality_queries")
+            # ... and with the typed dict of a second configuration of the schema that holds the same entries
+            try:
+                twin = cfg._schema()
+                twin.c = dict(got)
+                twin_c = twin.c if eqstar(plain(twin.c), got) else None
+            except Exception:
+                twin_c = None
+            if twin_c is not None:
+                checks += [("eq-twin", proxy == twin_c, True), ("ne-twin", proxy != twin_c, False), ("eq-twin-reversed", twin_c == proxy, True)]
+                res.count("dict_equality_with_a_twin_configuration")
         if ref:
             k = next(iter(ref))
             checks += [("getitem", got[k], ref[k]), ("get", plain(proxy.get(k)), ref.get(k)), ("contains", k in proxy, True)]
